@@ -124,16 +124,7 @@ func (x *exch) coqH3() string {
 		final = append(final, field{"content-length", fmt.Sprint(len(a.Body))})
 	}
 	sendTrailers := x.hasBody() && len(a.Trailers) > 0
-	if sendTrailers && o.DeclareTr {
-		var names []string
-		seen := map[string]bool{}
-		for _, t := range a.Trailers {
-			k := http.CanonicalHeaderKey(t.Name)
-			if !seen[k] {
-				seen[k] = true
-				names = append(names, k)
-			}
-		}
+	if names := x.h3Announced(); x.hasBody() && len(names) > 0 {
 		final = append(final, field{"trailer", strings.Join(names, ", ")})
 	}
 	heads = append(heads, fmt.Sprintf("(%s, %s)", coqLit([]byte(fmt.Sprint(a.Code))), coqFields(groupLower(final))))
